@@ -36,9 +36,13 @@ def showRes : Option Bytes → String
   | none => "err"
   | some b => "ok " ++ hexOrDash b
 
-def showLeaf : Option (Bytes × Nat) → String
+def showLeaf : Option (Bytes × Bytes) → String
   | none => "err"
-  | some (b, i) => s!"ok {hexOrDash b} {i}"
+  | some (b, [i]) => s!"ok {hexOrDash b} {i.toNat}"
+  | some _ => "bad-key"
+
+/-- stand-ins for the SubjectPublicKeyInfos of chain[1:]: position `k` carries the one-byte key `k` -/
+def keysOf (chainLen : Nat) : List Bytes := (List.range chainLen).drop 1 |>.map (fun k => [UInt8.ofNat k])
 
 def onTbs (h : String) (f : Bytes → String) : String :=
   match fromHex h with
@@ -73,11 +77,11 @@ where go : List String → String
     | some p => onTbs h fun bs => showRes (buildPrecertTBS bs p)
   | "leafpre" :: h :: n :: pre =>
     match parsePre pre, parseNat? n with
-    | some p, some n => onTbs h fun bs => showLeaf (leafFromPrecertChain bs n p)
+    | some p, some n => onTbs h fun bs => showLeaf (leafFromPrecertChain bs (keysOf n) p)
     | _, _ => "bad-op"
   | ["leafemb", h, n] =>
     match parseNat? n with
-    | some n => onTbs h fun bs => showLeaf (leafForEmbeddedSCT bs n)
+    | some n => onTbs h fun bs => showLeaf (leafForEmbeddedSCT bs (keysOf n))
     | none => "bad-op"
   | "sctenc" :: n :: items =>
     match parseNat? n with
